@@ -22,7 +22,7 @@ from kv.props import c06_model as m
 FIN = m.FIN
 HEADER = fw.STD_HEADER + 'From KV Require Import Base.Dicts Model.Finalizers Model.FinalizersReplay.\n'
 MODEL = 'Model/FinalizersReplay.v'
-VARIANTS = ['plain', 'plain', 'nofilter', 'shared', 'optional']
+VARIANTS = ['plain', 'multi', 'nofilter', 'shared', 'optional', 'multi2', 'plain']
 
 
 class K8sServer:
@@ -40,6 +40,8 @@ class K8sServer:
     def fins(self) -> list[str]:
         return list(self.doc['metadata'].get('finalizers', [])) if self.doc is not None else []
 
+    gone_labelled: Any = None
+
     def bump_and_settle(self) -> None:
         assert self.doc is not None
         md = self.doc['metadata']
@@ -48,6 +50,7 @@ class K8sServer:
             md.pop('finalizers', None)
         self.last_doc = copy.deepcopy(self.doc)
         if md.get('deletionTimestamp') and not md.get('finalizers'):
+            self.gone_labelled = md.get('labels', {}).get('app') == 'x'
             self.doc = None
 
     def act(self, a: dict) -> bool:
@@ -122,8 +125,15 @@ class World:
         flt = {'labels': {'app': 'x'}} if variant == 'plain' else {}
         self.c_del = variant != 'optional'
         self.c_shared = variant == 'shared'
-        self.filtered = variant == 'plain'
-        if variant == 'shared':
+        self.filtered = variant in ('plain', 'multi2')
+        self.o_filtered = variant == 'multi'
+        if variant in ('multi', 'multi2'):
+            # several deletion handlers: an optional one registered BEFORE the mandatory H; one of the two is filtered by the label
+            kopf.on.delete('kopfexamples', registry=self.reg, id='o', optional=True,
+                           **({'labels': {'app': 'x'}} if variant == 'multi' else {}))(self._mkfn('o'))
+            kopf.on.delete('kopfexamples', registry=self.reg, id='h', **({'labels': {'app': 'x'}} if variant == 'multi2' else {}))(self._mkfn('h'))
+            kopf.on.update('kopfexamples', registry=self.reg, id='u')(self._mkfn('u'))
+        elif variant == 'shared':
             fn = self._mkfn('h')
             kopf.on.update('kopfexamples', registry=self.reg, id='h')(fn)
             kopf.on.delete('kopfexamples', registry=self.reg, id='h')(fn)
@@ -148,6 +158,10 @@ class World:
         self.readable: list[Any] = []
         self.po_calls: list[int] = []
         self.writes: list[dict] = []
+        self.cycle_facts: list[dict] = []
+        self.armed = False
+        self.delete_armed: Any = None
+        self.gone_facts: dict | None = None
         self.carried_before: list[str] = []
         self.cycle_no = 0
         self.decision_mdel = True            # did H match the view on which the oldest pending fn was decided
@@ -180,6 +194,10 @@ class World:
     def labelled(self) -> bool:
         doc = self.srv.doc if self.srv.doc is not None else self.srv.last_doc
         return doc['metadata'].get('labels', {}).get('app') == 'x'
+
+    @property
+    def gone_h_matched(self) -> bool:
+        return bool(self.srv.gone_labelled) if self.filtered else self.srv.gone_labelled is not None
 
     # ---- hooks of the timed (daemon) worlds
     def wrap(self, label: str) -> str:
@@ -234,6 +252,12 @@ class World:
         return self.filtered
 
     def note_edit(self, a: dict, labelled_before: bool, in_cycle: bool) -> None:
+        # `armed`: the operator has completed an undisturbed cycle on a view that H matched and nothing changed H's verdict since;
+        # only then "gone before the handler was called" is the framework's doing and not a deletion racing with the first sight
+        if a['do'] == 'label' and a['on'] != labelled_before and self.filtered:
+            self.armed = False
+        if a['do'] == 'delete' and self.delete_armed is None and (in_cycle or not (self.srv.doc or {}).get('metadata', {}).get('deletionTimestamp')):
+            self.delete_armed = self.armed
         if a['do'] == 'label' and a['on'] != labelled_before and self.verdict_on_label() and (in_cycle or self.carried()):
             self.steady = False
 
@@ -306,8 +330,9 @@ class World:
         others = [h for h in self.reg._changing.get_all_handlers()
                   if not (self.c_del and h.id == 'h' and str(h.reason) == 'delete')]
         rec_after = self.rec(srv.doc if srv.doc is not None else srv.last_doc)
+        view_labelled = raw['object']['metadata'].get('labels', {}).get('app') == 'x'
         k = (f'{{| k_spawn_others := nil; k_chg_others := '
-             + cq.clist(f'{{| ch_reqfin := {cq.cbool(bool(h.requires_finalizer))}; ch_prematch := true |}}' for h in others)
+             + cq.clist(f'{{| ch_reqfin := {cq.cbool(bool(h.requires_finalizer))}; ch_prematch := {cq.cbool(view_labelled if (self.o_filtered and h.id == "o") else True)} |}}' for h in others)
              + f'; k_low_empty := true; k_ctime := {"CtSome" if self.ctime_used else "CtNone"}; k_timed_out := {cq.cbool(not self.ctime_used)}; k_sdelays_others := nil; '
              f'k_cdelays_others := {m.czs([1] * others_delays)}; k_h_finishes := {cq.cbool(h_fin)}; '
              f'k_other_rec := {cq.cbool(rec_after)}; k_extra_merge := {cq.cbool(bool(merges))}; k_stop := SStill |}}')
@@ -358,6 +383,17 @@ class World:
                 'h_matched_in_view': view_mdel, 'h_matched_at_decision': self.decision_mdel,
                 'carried_in': fns_at_apply > 0 and bool(self.carried_before),
                 'h_done': self.done})
+        vmd = raw['object']['metadata']
+        self.cycle_facts.append({
+            'cycle': self.cycle_no, 'event': ev_type, 'view_deleting': bool(vmd.get('deletionTimestamp')), 'view_held': FIN in vmd.get('finalizers', []),
+            'view_h_matches': (vmd.get('labels', {}).get('app') == 'x') if self.filtered else True,
+            'carried_before': list(self.carried_before), 'inconsistent': self.ctime_used,
+            'json_requests': [e[2] for e in srv.log if e[0] == 'req' and e[1] == 'application/json-patch+json'],
+            'held_after': FIN in self.srv.fins(), 'alive_after': self.srv.doc is not None,
+            'interfered': any(e[0] == 'foreign' for e in srv.log)})
+        cf = self.cycle_facts[-1]
+        if cf['event'] != 'DELETED' and not cf['interfered'] and 422 not in cf['json_requests'] and not self.carried():
+            self.armed = bool(cf['view_h_matches'] and not cf['view_deleting'])
         for lab in labels[:-1]:
             self.trace.append((self.wrap(lab), None))
         self.trace.append((self.wrap(labels[-1]), self.obs()))
@@ -473,6 +509,18 @@ def monitors(ctx: fw.Ctx, sc: dict, w: World) -> None:
                      {**case, 'write': q, 'handler': 'h', 'id_shared_with_other_cause': w.c_shared,
                       'filters_changed_between_decision_and_write': q['h_matched_at_decision'] != q['h_matches_now']},
                      observed=[c for c in w.calls if c['id'] == 'h'][-4:], sig='released-early-handler')
+    early = any(FIN in q['before'] and q['after'] is not None and FIN not in q['after'] and q['status'] == 200 and w.c_del and q['h_matches_now']
+                and not q['h_done'] for q in w.writes)
+    for cf in w.cycle_facts:
+        # added when a handler starts requiring the object: a cycle that sees a live, not deleting, not held object which H matches, with
+        # nothing carried and nobody interfering, must leave it held
+        if (w.c_del and cf['event'] != 'DELETED' and not cf['view_deleting'] and not cf['view_held'] and cf['view_h_matches'] and not cf['carried_before']
+                and not cf['interfered'] and 422 not in cf['json_requests'] and cf['alive_after'] and not cf['held_after']):
+            ctx.fail('a mandatory deletion handler matches the object but the finalizer is not added', {**case, 'cycle': cf}, sig='fn-never-added')
+            break
+    if w.c_del and not w.done and not early and w.srv.doc is None and w.gone_h_matched and w.delete_armed:
+        ctx.fail('the object is gone although a matching mandatory deletion handler was never called', {**case, 'handler': 'h'},
+                 observed=[c for c in w.calls if c['id'] == 'h'][-4:], sig='fn-gone-before-handler')
     if w.steady and not w.c_shared and any(FIN in q['before'] and q['after'] is not None and FIN not in q['after'] and q['status'] == 200
                                              and w.c_del and q['h_matches_now'] and not q['h_done'] for q in w.writes):
         ctx.correspondence_break('T:steady', {'detail': 'a steady history with unshared ids released the finalizer early: '
